@@ -23,6 +23,7 @@ FMT = '%Y-%m-%dT%H:%M:%S'
 
 
 RULE += ' Since round 8: an empty Path= value.'
+RULE += ' Since round 19: foreign group headers before and between the two keys.'
 
 
 def contents(rng, rel, k):
@@ -30,7 +31,7 @@ def contents(rng, rel, k):
                    ([''] if k == 0 else []))       # an empty value: the entry is the $topdir itself, for every command
     path = p if rel else '/home/u/' + p
     date = rng.choice(['2024-01-01T00:00:00', '2023-06-15T08:09:10', '2000-02-29T12:00:00'])
-    v = rng.choice(['plain', 'dup_path', 'dup_date', 'extra', 'nohdr', 'crlf', 'trail', 'bad_first_date', 'tz', 'lower', 'no_date', 'spaces_key'])
+    v = rng.choice(['plain', 'dup_path', 'dup_date', 'extra', 'nohdr', 'crlf', 'trail', 'bad_first_date', 'tz', 'lower', 'no_date', 'spaces_key', 'mid_group', 'group_first'])
     if v == 'plain':
         t = '[Trash Info]\nPath=%s\nDeletionDate=%s\n' % (path, date)
     elif v == 'dup_path':
@@ -51,6 +52,10 @@ def contents(rng, rel, k):
         t = '[Trash Info]\nPath=%s\nDeletionDate=%s+01:00\n' % (path, date)
     elif v == 'lower':
         t = '[Trash Info]\nPath=%s\nDeletionDate=%s\n' % (path, date.replace('T', 't'))
+    elif v == 'mid_group':       # another group header between the two keys: no reader knows about groups, the date below it counts
+        t = '[Trash Info]\nPath=%s\n[X-Extra Group]\nDeletionDate=%s\n' % (path, date)
+    elif v == 'group_first':     # ... and so do both keys when they come after a foreign group header
+        t = '[X-Before]\nFoo=1\n[Trash Info]\nX-Note=[bracket]\nPath=%s\nDeletionDate=%s\n' % (path, date)
     elif v == 'no_date':
         t = '[Trash Info]\nPath=%s\n' % path
     else:
